@@ -16,7 +16,7 @@ LEVEL_TEXT = ("Static structural proof of necessary conditions, not of the prope
               "format_error* site in the closure binds to its message function through the decorator wrapper; no "
               "issue list returned inside the validator closure is discarded. Correctness of the rule predicates "
               "themselves (valid => no error; one fault => that code) is NOT decided.")
-LEVEL_EXTRA = 'Added after the seeded evaluation: (R1.4) the delimiter scan decides on the blank-stripped token text; (R1.5) no early exit skips a string-level check. (R1.6) no first/last-element access on a possibly empty list in the validators (validation reports, it does not raise IndexError). (R1.7) every setting a validator constructor stores on the object is read somewhere (one frozen exception). (R1.8) a def-tag search over a whole annotation in the validators is recursive; R1.3 also reports an issue accumulator that is plainly re-assigned before it was read. (R1.9) tag objects are not compared with DefTagNames keys directly.'
+LEVEL_EXTRA = 'Added after the seeded evaluation: (R1.4) the delimiter scan decides on the blank-stripped token text; (R1.5) no early exit skips a string-level check. (R1.6) no first/last-element access on a possibly empty list in the validators (validation reports, it does not raise IndexError). (R1.7) every setting a validator constructor stores on the object is read somewhere (one frozen exception). (R1.8) a def-tag search over a whole annotation in the validators is recursive; R1.3 also reports an issue accumulator that is plainly re-assigned before it was read. (R1.9) tag objects are not compared with DefTagNames keys directly. (R1.10) a parameter is handed on to every repository callee that takes a parameter of the same name (11 frozen exceptions package-wide).'
 
 
 def signature_rule(ctx, rule, funcs, floor_sites):
@@ -210,3 +210,8 @@ def run(ctx):
                       "`Delay/3 s` is not recognised as a Delay tag and the group is reported for its extra child",
                       desc="%s: tag kind tested on a name attribute" % f.short)
     ctx.floor("R1.9", "comparisons with DefTagNames keys in the validators", n_kind, 10)
+
+    # ---------------- R1.10: parameters are handed on to same-named parameters of repository callees
+    from sa.forward import check_forwarding
+    nfw = check_forwarding(ctx, "R1.10", [f for f in prog.functions.values() if f.module.name.startswith(('hed.validator',))], 'e.g. placeholders allowed, error code, offsets')
+    ctx.floor("R1.10", "same-named parameter sites", nfw, 1)
